@@ -76,6 +76,7 @@ type Contract struct {
 	LemmaVars     []QVar
 	MaxPaths      int
 	MergeExits    bool
+	NoMerge       bool // path splitting at top-level branching statements
 	GuardsOn      bool
 	GhostAfter    []*GhostAnchor // ghost assignments executed after the statement whose text starts with Anchor
 	GhostEntry    []*Effect      // ghost assignments executed at function entry (explicit instrumentation)
@@ -625,6 +626,8 @@ func (cf *ContractFile) parseOne(path string) error {
 				c.Pure = true
 			case "nosafety":
 				c.NoSafety = true
+			case "nomerge":
+				c.NoMerge = true
 			case "mergeexits":
 				c.MergeExits = true
 			case "maxpaths":
